@@ -498,10 +498,14 @@ def run_pysim(cfg, stim, seed=0, consumer=True):
         perm = list(range(len(recs)))
         random.Random(seed).shuffle(perm)
         col = E["Collector"]()
-        col.run([recs[i] for i in perm])
+        # run() takes any iterable of records: a list, a tuple, a generator (what EventLogReader is)
+        feed = ["list", "generator", "tuple", "iterator"][seed % 4]
+        shuffled = [recs[i] for i in perm]
+        col.run({"list": shuffled, "generator": (r for r in shuffled), "tuple": tuple(shuffled),
+                 "iterator": iter(shuffled)}[feed])
         idx = {id(s): i for i, s in enumerate(log.schema.sites)}
         import dataclasses
-        tr["consumer"] = {"perm": [i + 1 for i in perm],
+        tr["consumer"] = {"perm": [i + 1 for i in perm], "feed": feed,
                           "out": [[h, int(r.cycle), idx[id(r.site)],
                                    [[f.name, typed(getattr(r.event, f.name))] for f in dataclasses.fields(r.event)]]
                                   for h, r in col.out]}
